@@ -292,6 +292,11 @@ func TestC12ScriptedBackend(t *testing.T) {
 		}
 		afterChecks(t, s, px, ctxs)
 		// not poisoned: the fault is consumed; the same entry must now be served exactly
+		// (a request that gave up before it reached the backend has not consumed
+		// it: a "block until cancelled" fault would then park the next read forever)
+		if px.ClearFaults() > 0 {
+			E.Label("fault-not-reached")
+		}
 		r2 := diskGet(s, kind, hash, int64(len(data)))
 		if !r2.hit || !bytes.Equal(r2.data, data) || r2.size != int64(len(data)) {
 			t.Fatalf("second (fault-free) read: hit=%v %d bytes size=%d err=%v (local cache poisoned or backend not consulted): %s", r2.hit, len(r2.data), r2.size, r2.err, ctxs)
